@@ -413,6 +413,12 @@ def promo_session(rng, ctx, f, roles):
                     if rng.random() < 0.5:
                         s.csens(('c', n0), ('r', i)); s.cucomp(('c', n0), ('r', i))
                     if rng.random() < 0.15: s.cread(rng.choice(['x', 'u', 'v', 'df']), n0)
+                    # result() of EVERY promoted value must be transparent (its components are new objects whatever the
+                    # role of the real operand), and the declared value keeps its components
+                    n1 = len(s.slots); s.cresult(n0, label=rng.choice([None, None, 41]))
+                    if isinstance(s.slots[n1], s.UR) and s.cobj(n1) is not None:
+                        s.cucomp(('c', n1), ('r', i))
+                        if rng.random() < 0.3: s.csens(('c', n1), ('c', n0))
     # ** leaving the reals (negative base, fractional exponent): the (lhs+0j)**rhs fall-backs
     if f == 'pow':
         s.ureal(-2.0, 0.5); a = len(s.slots) - 1
@@ -422,6 +428,8 @@ def promo_session(rng, ctx, f, roles):
             n0 = len(s.slots); s.cbin('pow', A, B)
             if s.cobj(n0) is not None and isinstance(s.slots[n0], s.UR):
                 s.csens(('c', n0), ('r', a)); s.cucomp(('c', n0), ('r', b))
+                n1 = len(s.slots); s.cresult(n0)
+                if isinstance(s.slots[n1], s.UR) and s.cobj(n1) is not None: s.cucomp(('c', n1), ('r', a))
     # exact zero on the left of an uncertain complex
     s.ucomplex(rng.choice(QUADS), (0.5, 0.25)); z = max(s.cplx_slots())
     for c in (0, 0.0, -0.0, 0j, 1, 1.0, 1 + 0j):
